@@ -150,9 +150,15 @@ def read_all(fmt, data, d, tag):
 
 
 INFO_KEYS = [("DP", "Integer"), ("AF", "Float"), ("DB", "Flag"), ("DBV", "String"), ("AC", "Integers")]
+INFO_KEYS_ALT = [("DP", "Float"), ("AF", "String"), ("DB", "Flag"), ("DBV", "String"), ("AC", "Integers")]      # FormatSamples.tla!AltInfoDecl
 
 
-def read_vcf_typed(data, d, tag):
+def alt_header(data):
+    """the same file with the header declaring DP as Float and AF as String (same keys, same order)"""
+    return data.replace(b"ID=DP,Number=1,Type=Integer", b"ID=DP,Number=1,Type=Float").replace(b"ID=AF,Number=1,Type=Float", b"ID=AF,Number=1,Type=String")
+
+
+def read_vcf_typed(data, d, tag, INFO_KEYS=INFO_KEYS, only_info=False):
     """typed INFO (default VCF buffer, lazy and eager), genotype strings (VCFBuffer2) and the genotype matrix (VCFMatrixBuffer)"""
     import bionumpy as bnp
     from bionumpy.io.vcf_buffers import VCFBuffer2, VCFMatrixBuffer
@@ -200,6 +206,9 @@ def read_vcf_typed(data, d, tag):
         res["info-" + ("lazy" if lazy else "eager")] = outcome(typed, lazy)
         res["info-" + ("lazy" if lazy else "eager") + "-reversed"] = outcome(typed, lazy, "reversed")
         res["info-" + ("lazy" if lazy else "eager") + "-after-peek"] = outcome(typed, lazy, "after-peek")
+    if only_info:
+        os.remove(path)
+        return res
     res["genotype-strings"] = outcome(lambda: [[list(b) for b in row] for row in bnp.open(path, buffer_type=VCFBuffer2).read().genotype.raw().tolist()])
     def matrix():
         txt = bnp.open(path, buffer_type=VCFMatrixBuffer).read().genotypes.tolist()
@@ -210,10 +219,31 @@ def read_vcf_typed(data, d, tag):
     return res
 
 
-def check_vcf_typed(v):
+def check_vcf_order(job):
+    """two VCF files with the same INFO keys declared with different types, read one after the other in a process where no VCF was read
+    before: each must be read by its own header"""
+    order, v = job
+    bad, n = [], 0
+    for which in order:
+        r = check_vcf_typed(v, alt=(which == "alt"))
+        n += r["n"]
+        for b in r["bad"]:
+            b["tags"]["order"] = "-".join(order)
+            b["tags"]["header"] = which
+            b["group"] = dict(b["group"], order="-".join(order), header=which)
+        bad += r["bad"]
+    return {"n": n, "nt": ["vcforder|" + "-".join(order)], "bad": bad}
+
+
+def check_vcf_typed(v, alt=False):
     data = bytes(v["text"])
     exp = v["expected"]
-    res = read_vcf_typed(data, v["_dir"], "%d_%d" % (os.getpid(), v["_id"]))
+    INFO_KEYS = globals()["INFO_KEYS"]
+    if alt:
+        data, exp, INFO_KEYS = alt_header(data), v["expectedAlt"], INFO_KEYS_ALT
+        res = read_vcf_typed(data, v["_dir"], "%d_%da" % (os.getpid(), v["_id"]), INFO_KEYS=INFO_KEYS, only_info=True)
+    else:
+        res = read_vcf_typed(data, v["_dir"], "%d_%d" % (os.getpid(), v["_id"]))
     bad, n = [], 0
     for mode, o in res.items():
         n += 1
@@ -423,6 +453,9 @@ def run(ctx):
         v["_dir"] = ctx.work
     ctx.sample({k: vectors[5][k] for k in ("fmt", "expected", "crlf", "finalnl")})
     ctx.absorb(core.pmap(check_vector, vectors, chunk=25))
+    # the same INFO keys declared with other types in a second file: both orders, each in a process of its own
+    vv = [v for v in vectors if v["fmt"] == "vcfinfo" and len(v["expected"]) >= 2][:3]
+    ctx.absorb(core.pmap_isolated(check_vcf_order, [(o, v) for v in vv for o in (["std", "alt"], ["alt", "std"])]))
     ntr = 300 if quick else 3000
     recs = core.pmap(record_trace, [(i, ctx.seed * 100003 + i, ctx.work) for i in range(ntr)], chunk=20)
     bad, acc = validate(ctx, recs)
